@@ -39,7 +39,8 @@ DEGRADE = {
     "2.7-style": {}, "extended": {},
 }
 DETAILS = ("new", "Content", (("sym", "a content type"), ("sym", "a byte source")))
-D = ("kwdict", (("note", DETAILS),))
+TRACEBACK_DETAIL = ("new", "Content", (("sym", "a text content type"), ("sym", "byte source of the traceback")))
+D = ("kwdict", (("traceback", TRACEBACK_DETAIL), ("note", DETAILS)))
 T0, T1 = ("sym", "time before the test"), ("sym", "time at the end of the test")
 
 
@@ -111,6 +112,8 @@ def check_etod(ctx, anchor):
                     if form == "details" and not FLAVOURS[flavour]["details"] and m == oc and oc in ("addError", "addFailure", "addExpectedFailure"):
                         if len(pos) != 2 or not (isinstance(pos[1], tuple) and pos[1][:1] == ("tuple",) and len(pos[1]) == 4):
                             fallback.add(f"{m} falls back to {pos[1:]!r}; expected an exc_info triple made from the details")
+                        elif "a byte source" not in repr(pos[1]) or "byte source of the traceback" not in repr(pos[1]):
+                            fallback.add(f"the synthetic exception {m} falls back to is not made from all the details (a traceback and a note were given): {pos[1]!r}"[:400])
                     if form == "details" and not FLAVOURS[flavour]["details"] and m == oc == "addSkip" and (len(pos) != 2 or pos[1] in (NONE, None)):
                         fallback.add(f"addSkip falls back to {pos[1:]!r}; expected a reason made from the details")
                     if form == "plain" and m == oc and oc in ("addError", "addFailure", "addExpectedFailure") and tuple(pos[1:]) != (rm.ERR,):
